@@ -441,6 +441,28 @@ def question_mark(body, value_local):
             cont = targets.get(0)
             brk = targets.get(1, tt["else"])
             return bb, cont, brk
+    # the long form of `?`: `match value { Ok(v) => .., Err(e) => return Err(..) }` - a switch on the discriminant of the
+    # Result itself whose Err arm cannot reach an Ok return and does build an Err
+    oks = set(ok_return_blocks(body))
+    for sw in sorted(body.live_blocks()):
+        tt = body.term(sw)
+        if tt["k"] != "switch":
+            continue
+        dl = F.op_local(tt["o"])
+        for _, idx, d in body.defs().get(dl, []) if dl is not None else []:
+            if idx == "t" or d.get("k") != "disc" or not d.get("p"):
+                continue
+            pl = d["p"]
+            if pl[0] not in al or any(isinstance(e, list) and e[0] == "f" for e in pl[1:]) or not (body.local_ty(pl[0]) or "").lstrip("&mut ").startswith("std::result::Result<"):
+                continue
+            targets = {int(v): b for v, b in tt["ts"]}
+            cont, brk = targets.get(0), targets.get(1, tt["else"])
+            if cont is None or brk is None or cont == brk:
+                continue
+            r = body.reachable(brk)
+            builds_err = any("r" in st and st["r"]["k"] == "agg" and st["r"].get("adt") == "std::result::Result" and st["r"].get("vn") == "Err" for x in r for st in body.stmts(x))
+            if not (oks & r) and builds_err:
+                return sw, cont, brk
     return None
 
 
